@@ -4,7 +4,7 @@ use chess::*;
 use std::io::Write;
 use std::str::FromStr;
 
-fn res_code(r: Option<GameResult>) -> &'static str {
+pub fn res_code(r: Option<GameResult>) -> &'static str {
     match r { None => "N", Some(GameResult::WhiteCheckmates) => "WC", Some(GameResult::WhiteResigns) => "WR", Some(GameResult::BlackCheckmates) => "BC",
         Some(GameResult::BlackResigns) => "BR", Some(GameResult::Stalemate) => "ST", Some(GameResult::DrawAccepted) => "DA", Some(GameResult::DrawDeclared) => "DD" }
 }
